@@ -13,6 +13,7 @@ import (
 	"runtime"
 	"strconv"
 	"strings"
+	"sync"
 	"sync/atomic"
 	"testing"
 	"time"
@@ -136,7 +137,7 @@ func vsetNow(n int64) {
 // harness delivers them.
 func vtakeover[K comparable, V any](s *Store[K, V], before int) {
 	s.cancel()
-	for i := 0; runtime.NumGoroutine() > before; i++ {
+	for i := 0; runtime.NumGoroutine() > before || vstoreBg() > vbgBase; i++ {
 		if i > 200000 {
 			panic("verif: background goroutines did not stop")
 		}
@@ -149,9 +150,42 @@ func vtakeover[K comparable, V any](s *Store[K, V], before int) {
 	s.ctx, s.cancel = context.WithCancel(context.Background())
 }
 
+// vstoreBg counts the goroutines that are inside a store's background functions (the write loop, the ticker it starts,
+// the secondary-tier workers), from the stacks of all goroutines.
+var (
+	vstackMu  sync.Mutex
+	vstackBuf = make([]byte, 1<<20)
+	vbgBase   int // what vsettled found still alive (0 unless a store was leaked open by an earlier test)
+)
+
+func vstoreBg() int {
+	vstackMu.Lock()
+	defer vstackMu.Unlock()
+	n := runtime.Stack(vstackBuf, true)
+	for n == len(vstackBuf) {
+		vstackBuf = make([]byte, 2*len(vstackBuf))
+		n = runtime.Stack(vstackBuf, true)
+	}
+	cnt := 0
+	for _, g := range strings.Split(string(vstackBuf[:n]), "\n\n") {
+		if strings.Contains(g, "]).maintenance") || strings.Contains(g, "]).processSecondary") {
+			cnt++
+		}
+	}
+	return cnt
+}
+
 // vsettled waits until goroutines left over from earlier cases have exited, so that the
-// goroutine count is a reliable signal in vtakeover
+// goroutine count is a reliable signal in vtakeover.  A count that merely stopped changing is not enough on a busy machine (a
+// cancelled write loop that has not been scheduled yet is still counted, and would let a new store's write loop slip through the
+// takeover when it exits): the background goroutines of closed stores are waited for by name.
 func vsettled() int {
+	bg := vstoreBg()
+	for i := 0; bg > 0 && i < 40000; i++ {
+		time.Sleep(50 * time.Microsecond)
+		bg = vstoreBg()
+	}
+	vbgBase = bg
 	last, stable := runtime.NumGoroutine(), 0
 	for i := 0; i < 20000 && stable < 40; i++ {
 		time.Sleep(50 * time.Microsecond)
